@@ -609,7 +609,7 @@ def built_scale_cases(rng: random.Random, n: int) -> List[Case]:
 
 def mk_suite() -> Suite:
     return Suite(name="valid", imports=IMPORTS, in_ty="vcase", out_ty="vout", check="check_valid", show="show_valid",
-                 shard=150)
+                 shard=50)
 
 
 def suites(tier: str, seed: int) -> List[Suite]:
@@ -617,13 +617,13 @@ def suites(tier: str, seed: int) -> List[Suite]:
     if tier == "replay":
         return [su]
     rng = random.Random(seed * 7919 + 8)
-    nprog = 500 if tier == "quick" else 8000
+    nprog = 500 if tier == "quick" else 5000
     corpus = compiled_corpus(rng, nprog)
     for texts, recipes in corpus:
         for _ in range(2):
             k = gen_factor(rng)
             su.cases.append(scale_case({"kind": "scale", "sources": texts, "k": c.num_json(k)}, recipes, k, strict=True))
-    n = 400 if tier == "quick" else 6000
+    n = 400 if tier == "quick" else 4000
     su.cases += gen_node_cases(rng, n)
     su.cases += gen_recipe_cases(rng, n)
     with_refs = [r for _, r in corpus if has_reference(r)]
